@@ -39,12 +39,12 @@ def collect_mt(o, pid, tier):
     prefix of relative length min(1, exp(x^2/2 + d (1 - v + ln v))), the ratio of the gamma density to the normal hat (f64 and f32)."""
     wd = workdir(pid, 'traces')
     tr = wd / 'mt.ndjson'
-    r = tlc('MCMt', 'MCMt.cfg', pid, 'mt_cases', workers=1, timeout=1200, heap='2g', pipe_to=[str(RDV), 'btpe-drive', '--out', str(tr)])
+    r = tlc('MCMt', 'MCMt.cfg', pid, 'mt_cases', workers=1, timeout=1200, heap='2g', env={'TIER': tier}, pipe_to=[str(RDV), 'btpe-drive', '--out', str(tr)])
     require_ok(r, 'MCMt')
     s = json.loads(r.consumer_out.strip().splitlines()[-1])
     if s['events'] < 80:
         raise ToolError('btpe-drive (MT): too few events: %s' % s)
-    rr = tlc('TraceBtpe', 'TraceBtpe.cfg', pid, 'mt_trace', trace_mode=True, env={'TRACE': tr}, timeout=1200, heap='4g')
+    rr = tlc('TraceBtpe', 'TraceBtpe.cfg', pid, 'mt_trace', trace_mode=True, env={'TRACE': tr, 'TIER': tier}, timeout=1200, heap='4g')
     require_ok(rr, 'TraceBtpe (MT)')
     if rr.rejected or rr.violated:
         raise ToolError('mt trace not consumed: %s' % (rr.rejected or rr.violated))
